@@ -98,6 +98,10 @@ func H20_lockset() {
 	s := sI.(*Segment)
 	if vSymbolic() {
 		vGuard(&s.refs, &s.m)
+		// the release itself (unmap, close of the descriptor) happens inside the same critical section as
+		// the decrement that found zero: the mapping and the file are only touched with the mutex held
+		vGuard(&s.mm, &s.m)
+		vGuard(&s.f, &s.m)
 		refs := 1
 		for i := 0; i < 4 && refs > 0; i++ {
 			switch vChoice(fmt.Sprint("op", i), 3) {
@@ -142,6 +146,32 @@ func H20_lockset() {
 	sCheckStored(s, sp, "stress-read-")
 	vAssert(s.Close() == nil, "stress-final-close")
 	vAssert(vFSOpenHandles() == 0 && vFSLiveMappings() == 0, "stress-released")
+	// the last references dropped by several holders at the same moment: exactly one of them releases,
+	// every drop reports nil
+	for round := 0; round < 2500; round++ {
+		oI, err := z.Open(path)
+		vAssert(err == nil, "stress-open")
+		o := oI.(*Segment)
+		o.AddRef()
+		o.AddRef()
+		res := make(chan error, 3)
+		start := make(chan struct{})
+		for h := 0; h < 3; h++ {
+			go func(h int) {
+				<-start
+				if (h+round)%2 == 0 {
+					res <- o.DecRef()
+				} else {
+					res <- o.Close()
+				}
+			}(h)
+		}
+		close(start)
+		for h := 0; h < 3; h++ {
+			vAssert(<-res == nil, "stress-final-drop-error")
+		}
+	}
+	vAssert(vFSOpenHandles() == 0 && vFSLiveMappings() == 0, "stress-all-released")
 }
 
 func mustDict(s segment.Segment, f string) segment.TermDictionary {
